@@ -211,6 +211,57 @@ def flatten_and(guards):
     return out
 
 
+def _live_after(fnode, s, name):
+    """may `name` be read after statement s before it is assigned again?  (statement-level scan: a read anywhere in a
+    following statement counts, only an unconditional top-level assignment kills)"""
+    def path(block_owner, blocks):
+        for blk in blocks:
+            for k_, st in enumerate(blk):
+                if st is s:
+                    return [(block_owner, blk, k_)]
+                subs = [getattr(st, a_, None) for a_ in ('body', 'orelse', 'finalbody')]
+                subs = [b_ for b_ in subs if isinstance(b_, list)]
+                if isinstance(st, ast.Try):
+                    subs += [h.body for h in st.handlers]
+                if subs and not isinstance(st, (ast.FunctionDef, ast.Lambda)):
+                    p_ = path(st, subs)
+                    if p_ is not None:
+                        return [(block_owner, blk, k_)] + p_
+        return None
+
+    def scan(stmts):
+        # -> 'live' / 'dead' / None (falls through)
+        for st in stmts:
+            loads = any(isinstance(x, ast.Name) and x.id == name and isinstance(x.ctx, ast.Load) for x in ast.walk(st))
+            if loads:
+                return 'live'
+            if isinstance(st, ast.Assign) and any(isinstance(t_, ast.Name) and t_.id == name for t_ in st.targets):
+                return 'dead'
+            if isinstance(st, ast.Assign) and any(isinstance(t_, (ast.Tuple, ast.List)) and any(isinstance(e_, ast.Name) and e_.id == name for e_ in t_.elts)
+                                                  for t_ in st.targets):
+                return 'dead'
+            if isinstance(st, ast.Return):
+                return 'dead'
+        return None
+    p_ = path(fnode, [fnode.body])
+    if p_ is None:
+        return True
+    for owner, blk, k_ in reversed(p_):
+        r = scan(blk[k_ + 1:])
+        if r is not None:
+            return r == 'live'
+        if isinstance(owner, (ast.For, ast.While)):
+            # the back edge: the loop head and the statements before s in the next iteration
+            if isinstance(owner, ast.While) and any(isinstance(x, ast.Name) and x.id == name for x in ast.walk(owner.test)):
+                return True
+            r = scan(blk[:k_])
+            if r == 'live':
+                return True
+            if r is None:
+                return True      # reaches s again unassigned: the loop carries it
+    return False
+
+
 # ----------------------------------------------------------------------------- interpreter
 class Kernel:
     """Result of interpreting one function."""
@@ -1385,8 +1436,82 @@ class Interp:
         ast.fix_missing_locations(outer)
         return outer
 
+    def _fused_desugar(self, s):
+        """`for i in range(R * C): y, x = divmod(i, C)` (or `y = i // C; x = i % C`) -> the nested loops over (R, C) it
+        flattens; `i` stays available as y * C + x.  Only without `break`."""
+        it = s.iter
+        if not (isinstance(it, ast.Call) and isinstance(it.func, ast.Name) and it.func.id in ('range', 'prange') and not it.keywords
+                and isinstance(s.target, ast.Name)) or s.orelse:
+            return None
+        if len(it.args) == 2 and isinstance(it.args[0], ast.Constant) and it.args[0].value == 0:
+            bound = it.args[1]
+        elif len(it.args) == 1:
+            bound = it.args[0]
+        else:
+            return None
+        i_ = s.target.id
+        if any(isinstance(x, ast.Break) for b_ in s.body for x in ast.walk(b_)):
+            return None
+
+        def is_i(e_):
+            return isinstance(e_, ast.Name) and e_.id == i_
+        ty = tx = div = None
+        used = 0
+        b0 = s.body[0] if s.body else None
+        if isinstance(b0, ast.Assign) and len(b0.targets) == 1 and isinstance(b0.targets[0], ast.Tuple) and len(b0.targets[0].elts) == 2 and \
+                all(isinstance(t_, ast.Name) for t_ in b0.targets[0].elts) and isinstance(b0.value, ast.Call) and \
+                isinstance(b0.value.func, ast.Name) and b0.value.func.id == 'divmod' and len(b0.value.args) == 2 and is_i(b0.value.args[0]):
+            ty, tx = (t_.id for t_ in b0.targets[0].elts)
+            div = b0.value.args[1]
+            used = 1
+        elif len(s.body) >= 2:
+            parts = {}
+            for st in s.body[:2]:
+                if isinstance(st, ast.Assign) and len(st.targets) == 1 and isinstance(st.targets[0], ast.Name) and \
+                        isinstance(st.value, ast.BinOp) and isinstance(st.value.op, (ast.FloorDiv, ast.Mod)) and is_i(st.value.left):
+                    parts[type(st.value.op)] = (st.targets[0].id, st.value.right)
+            if len(parts) == 2 and norm(parts[ast.FloorDiv][1]) == norm(parts[ast.Mod][1]):
+                ty, tx, div = parts[ast.FloorDiv][0], parts[ast.Mod][0], parts[ast.Mod][1]
+                used = 2
+        if div is None or len({ty, tx, i_}) != 3:
+            return None
+        try:
+            hi = self.as_scalar(self.ev(bound), s)
+            c = self.as_scalar(self.ev(div), s)
+        except AnalysisIncomplete:
+            return None
+        if c.is_const():
+            return None
+        from .sym import cancel_monomial
+        r = cancel_monomial(hi / c)
+        if not r.d.is_const():
+            return None
+        # the divisor must not change inside the loop
+        if any(isinstance(n_, ast.Name) and isinstance(n_.ctx, ast.Store) and n_.id in {x.id for x in ast.walk(div) if isinstance(x, ast.Name)}
+               for b_ in s.body for n_ in ast.walk(b_)):
+            return None
+        self.fresh += 1
+        rname = '__rows%d' % self.fresh
+        self.env[rname] = r
+
+        def rng(e_):
+            return ast.Call(func=ast.Name(id='range', ctx=ast.Load()), args=[e_], keywords=[])
+        body = list(s.body[used:])
+        if any(isinstance(n_, ast.Name) and n_.id == i_ for b_ in body for n_ in ast.walk(b_)):
+            flat = ast.Assign(targets=[ast.Name(id=i_, ctx=ast.Store())],
+                              value=ast.BinOp(left=ast.BinOp(left=ast.Name(id=ty, ctx=ast.Load()), op=ast.Mult(), right=div),
+                                              op=ast.Add(), right=ast.Name(id=tx, ctx=ast.Load())))
+            body = [flat] + body
+        inner = ast.For(target=ast.Name(id=tx, ctx=ast.Store()), iter=rng(div), body=body, orelse=[])
+        outer = ast.For(target=ast.Name(id=ty, ctx=ast.Store()), iter=rng(ast.Name(id=rname, ctx=ast.Load())), body=[inner], orelse=[])
+        for n_ in ast.walk(outer):
+            if not hasattr(n_, 'lineno'):
+                ast.copy_location(n_, s)
+        ast.fix_missing_locations(outer)
+        return outer
+
     def st_For(self, s):
-        nd = self._nd_desugar(s)
+        nd = self._nd_desugar(s) or self._fused_desugar(s)
         if nd is not None:
             return self.st_For(nd)
         it = self.ev(s.iter)
@@ -1505,6 +1630,8 @@ class Interp:
                 arr = self.as_arr(it, None) if isinstance(it, (Arr, tuple)) and not (isinstance(it, tuple) and it and it[0] in ('iter',)) else None
                 if arr is not None:
                     ew = (shape_sym(arr.name, 0), lambda i, arr=arr: self.read(arr, (i,)))
+                    if tgt.id in rowish:
+                        rows_of.append(arr)
             if ew is None:
                 return None
             if isinstance(tgt, ast.Name):
@@ -1518,6 +1645,18 @@ class Interp:
                     out.append((t_, (ew[0], lambda i, k_=k_, mk=ew[1]: self._component(mk(i), k_))))
                 return out
             return None
+        # the elements of a plain array are its rows when the body iterates over / indexes them again
+        rowish = set()
+        for b_ in s.body:
+            for x in ast.walk(b_):
+                if isinstance(x, ast.For):
+                    rowish |= {n_.id for n_ in ast.walk(x.iter) if isinstance(n_, ast.Name)}
+                elif isinstance(x, ast.Subscript) and isinstance(x.value, ast.Name):
+                    rowish.add(x.value.id)
+                elif isinstance(x, ast.Assign) and isinstance(x.value, ast.Call) and isinstance(x.value.func, ast.Name) and \
+                        x.value.func.id in ('zip', 'enumerate'):
+                    rowish |= {n_.id for n_ in ast.walk(x.value) if isinstance(n_, ast.Name)}
+        rows_of = []
         p = parts(it, s.target)
         if p is None:
             return None
@@ -1527,7 +1666,7 @@ class Interp:
             if self._elementwise(it) is not None:
                 return True
             return isinstance(it, tuple) and it and it[0] == 'iter' and it[1] in ('zip', 'enumerate') and any(has_ew(a) for a in it[2])
-        if not has_ew(it):
+        if not has_ew(it) and not rows_of:
             return None
         lengths = [ln for t_, (ln, mk) in p]
         return lengths[0], [(t_.id, mk) for t_, (ln, mk) in p if isinstance(t_, ast.Name)]
@@ -1667,6 +1806,12 @@ class Interp:
         if bound is None or idx not in self.env or not isinstance(self.env[idx], Rat):
             return None
         if any(isinstance(x, ast.Name) and x.id == idx for t in extra for x in ast.walk(t)):
+            return None
+        # the counter's value after the loop differs between the two spellings (n vs. the last index): only when
+        # nothing reads it afterwards - no load outside this loop, and not carried in from an enclosing loop
+        if _live_after(self.func.node, s, idx):
+            return None
+        if any('~loop' in getattr(a, 'name', '') for a in walk_atoms(self.env[idx])):
             return None
         self.fresh += 1
         start = '__start_%s_%d' % (idx, self.fresh)
